@@ -619,6 +619,9 @@ def main(prop):
     t, sd = tier(), seed()
     rep = Report(prop)
     build_s = common.build_driver()
+    import kani_run
+    kgroups = {'C13': ['stdk'], 'C14': ['tab'] if t == 'thorough' else [], 'C05': []}[prop]
+    kbox = kani_run.start(kgroups, timeout_s=2400, mem_gb=20) if kgroups and not os.environ.get('VERIF_NO_KANI') else None
     items = family(prop, t, sd)
     t0 = time.time()
     parts = parallel(work, items, chunk=40)
@@ -661,6 +664,7 @@ def main(prop):
         rep.broken.append({'why': 'no must-fail twin detected: obligations look vacuous', 'twins': tw})
     if stats['queries'] and stats['unknown'] > 0.01 * stats['queries']:
         rep.broken.append({'why': 'more than 1% of the queries inconclusive', 'unknown': stats['unknown']})
+    kani_summary = kani_run.join(kbox, rep, prop) if kbox else []
     obl = {
         'C13': ['shape: equalities, rhs >= 0 (exact)', 'preimage: LM(x) & forall y>=0 not(Ay=b & back(y)=x & objective relation) unsat', 'mapback: y>=0 & Ay=b & not(LM(back(y)) & objective relation) unsat'],
         'C05': ['Ok: returned point feasible (exact evaluation, 1e-6), reported value = objective, optimality for all points: LM(x) & obj better than value - tol unsat',
@@ -683,6 +687,7 @@ def main(prop):
                                   'C14': ['StandardLinearModel::into_tableau (incl. two-phase start)', 'Tableau::step', 'Tableau::solve_step_by_step']}[prop],
             'solver': 'z3 %s (python API); timeout %d ms per query' % (z3.get_version_string(), QT),
             'driver_build_s': round(build_s, 1), 'check_s': round(time.time() - t0, 1),
+            'kani': kani_summary,
         },
         'assumptions': ['z3 is the exact rational oracle', 'driver dumps are faithful (floats cross as shortest round-trip strings)'],
     }
